@@ -1,7 +1,7 @@
 (* C18 property theorems: statements + `exact lemma` only.
    cfg = liveness configuration, h = history of Query / Adv / ClearExpired,
    trace c h = the observable (op, output) list, after c h = the tester state. *)
-From CJ Require Import Common.Base C18.Model C18.Proofs C18.Proofs2.
+From CJ Require Import Common.Base C18.Model C18.Proofs C18.Proofs2 C18.ModelAgree C18.Agree C18.ModelConc C18.Conc.
 
 (* A verdict comes from a cache only if the address was measured less than the
    configured lifetime ago, and it is the verdict of that (most recent) measurement.
@@ -88,3 +88,32 @@ Theorem C18_never_both_fresh :
   forall c h a, ~ (fresh_on true (after c h) a /\ fresh_on false (after c h) a).
 Proof. exact never_both_fresh. Qed.
 Print Assumptions C18_never_both_fresh.
+
+(* below capacity the LRU cache and the map cache give the same answers and sizes through the
+   cache interface, provided Add is only called for keys that are absent (Examples.v shows that
+   both hypotheses are necessary; the tester does NOT keep the second one after an entry expired) *)
+Theorem C18_map_lru_agree_below_capacity :
+  forall ttl cp h, 1 <= cp ->
+    N.of_nat (length (nodup N.eq_dec (added_keys h))) <= cp ->
+    adds_absent 0 (CMap ttl []) h = true ->
+    krun 0 (CMap ttl []) h = krun 0 (CLru ttl (mkLru [] [] cp)) h.
+Proof. exact map_lru_agree_below_capacity. Qed.
+Print Assumptions C18_map_lru_agree_below_capacity.
+
+(* any number of goroutines, any programs of Add / Lookup / ClearExpired, any schedule of their
+   atomic sections: |entries| <= capacity + operations in flight, and <= capacity at quiescence *)
+Theorem C18_lru_bounded_concurrent :
+  forall cp progs sched, 1 <= cp ->
+    let '(s, ths) := crun (cinit cp progs) sched in
+    N.of_nat (length (sh_keys s)) <= cp + N.of_nat (in_flight ths) /\
+    (in_flight ths <= length progs)%nat /\
+    (quiescent ths -> N.of_nat (length (sh_keys s)) <= cp).
+Proof. exact lru_bounded_concurrent. Qed.
+Print Assumptions C18_lru_bounded_concurrent.
+
+Theorem C18_no_leak_concurrent :
+  forall cp progs sched, 1 <= cp ->
+    let '(s, ths) := crun (cinit cp progs) sched in
+    forall x, In x (sh_keys s) -> In x (sh_list s) \/ In x (flat_map pending ths).
+Proof. exact no_leak_concurrent. Qed.
+Print Assumptions C18_no_leak_concurrent.
